@@ -34,6 +34,22 @@
 //! directly in the table type (stronger than casting the file arrays with `arrow::compute::cast`, and
 //! independent of it; the lattice is value-preserving so both agree by construction); narrowing or
 //! lossy type changes are not generated (not documented as supported).
+//!
+//! Sensitivity probes (env-gated multi-mutation patch applied with tools/mutrun, one mutation per run via
+//! VF_MUT; all caught by `c44 quick`, seed 0):
+//! * `adapter_by_position` — schema_rewriter.rs `resolve_physical_column` trusts the incoming column index
+//!   instead of resolving by name -> VIOLATION (first cases).
+//! * `missing_as_zero` — schema_rewriter.rs `rewrite_column`: a column missing from the file is filled with
+//!   the type's zero instead of NULL -> VIOLATION after 56 cases.
+//! * `struct_by_index` — nested_struct.rs `cast_struct_column` maps a present struct field by position
+//!   instead of by name -> VIOLATION after 11 cases.
+//!
+//! Genuine finding (open, known_findings.json `dictionary-table-column+collect-statistics+filter`, case
+//! regressions/C44/c44/dictionary-column-statistics-interval.json, proposed repair
+//! fixes/C44-dictionary-column-statistics-interval.diff — verified with mutrun: the case passes and a
+//! full quick run is green): a table column declared Dictionary(Int32, Utf8), `collect_statistics=true`,
+//! >= 2 files of which one has no min/max for the column (missing or all NULL) and a WHERE clause going
+//! through interval analysis -> `Internal error: Endpoints of an Interval should have the same type`.
 use crate::util::*;
 use datafusion::arrow::array::*;
 use datafusion::arrow::datatypes::{DataType, Field, Fields, Schema, SchemaRef, TimeUnit};
@@ -977,7 +993,7 @@ impl Property for C44 {
         case_strategy(tier.pick(40, 150))
     }
     fn budget(&self, tier: Tier) -> Budget {
-        Budget::new(tier.pick(1_500, 60_000), tier.pick(8, 16)).min_nontrivial(tier.pick(200, 8000)).case_timeout(90)
+        Budget::new(tier.pick(1_500, 40_000), tier.pick(8, 16)).min_nontrivial(tier.pick(200, 6000)).case_timeout(90)
     }
     fn rule(&self) -> String {
         "table schema = struct column + 1-5 typed scalar columns; 1-3 Parquet files whose physical schemas permute / drop / add columns and struct fields and use lower types of a value-preserving lattice; \
